@@ -599,6 +599,8 @@ def canon_stamp(s):
 
 
 def canon_event(e):
+    if isinstance(e, str):
+        return (e,)
     k = e[0]
     if k in ("InitBlock", "RefreshBlock", "Block"):
         return (k, int(e[1]), int(e[2]), canon_stamp(e[3]))
@@ -612,8 +614,6 @@ def canon_event(e):
         return (k, int(e[1]), canon_ver(e[2]), tuple(sorted((canon_stamp(x) for x in e[3]), key=repr)))
     if k == "NewBasis":
         return (k, int(e[1]), bool(e[2]))
-    if isinstance(e, str):
-        return (e,)
     return tuple(e)
 
 
@@ -663,6 +663,8 @@ def canon_trace(events):
 
 def model_val(v):
     """parsed Coq value -> python trace value (constructor tuples / strings)"""
+    if isinstance(v, tuple) and len(v) == 2 and v[0] == "@":
+        return v[1]
     if isinstance(v, tuple):
         return tuple(model_val(x) for x in v)
     if isinstance(v, list):
@@ -1077,8 +1079,7 @@ class C09(Prop):
                     return f"no model value for step {s}"
                 if isinstance(m, BaseException):
                     return f"model error: {m}"
-                mtrace, mstruct, mshape = m
-                mtrace = [model_val(e) for e in mtrace]
+                mtrace, mstruct, mshape = model_val(m)
                 mev = canon_trace(mtrace)
                 if "exception" in st:
                     # the shape model must predict exactly this failure; the trace must be a prefix up to sibling order
